@@ -842,6 +842,16 @@ class JSExec(GoExec, SpecMixin, CallsMixin):
                 v = self.ev(st, args[0])
                 if not (isinstance(v, z3.ExprRef) and z3.is_fp(v)): raise Unsupported('$fround outside mode fp')
                 return z3.fpToFP(z3.RNE(), z3.fpToFP(z3.RNE(), v, F32), F64)
+            if name == '$clone' and len(args) == 2 and 'isclone' in self.spec.pures and 'cloneOf' in self.spec.pures:
+                # $clone(src, type) = type.zero() filled by type.copy: a new object holding the value of src.  Element objects
+                # are identities here; the contract file's isclone / cloneOf record where a clone came from.
+                v = self.ev(st, args[0]); self.ev(st, args[1])
+                if not (isinstance(v, z3.ExprRef) and z3.is_int(v)):
+                    raise Unsupported('$clone of %r @%s' % (v, line))
+                self.assumed.add('$clone(src, type) returns a new object that is a copy of src (types.js copy/zero of the element type are not under contract)')
+                c = fresh('clone')
+                st.assume(z3.And(self.pure_decl('isclone')(c), self.pure_decl('cloneOf')(c) == v))
+                return c
             if name == '$min':
                 return self.math(st, 'min', args, line)
             if name == '$imul':
